@@ -268,6 +268,9 @@ PROPS = {
             dict(part='coll', module='CollectionsTrace', cfg='CollectionsTrace.cfg'),
             dict(part='tmpl', module='MustacheTrace', cfg='MustacheTrace.C18.cfg')],
         mc=[dict(module='CollectionsMC', cfg='CollectionsMC.cfg')],
+        gen=[dict(part='coll', module='CollectionsGen', tag='vars', cfg={'quick': 'CollectionsGen.variables.cfg', 'thorough': 'CollectionsGen.variables.thorough.cfg'}),
+             dict(part='coll', module='CollectionsGen', tag='fns', cfg='CollectionsGen.functions.cfg'),
+             dict(part='coll', module='CollectionsGen', tag='sim', cfg='CollectionsGen.sim.cfg', sim={'quick': (200, 43), 'thorough': (4000, 43)})],
         corrupt=[('drop a reported name', _dropname)],
         exhaustive_part=True,
         harness_prefix='HARNESS:',
@@ -289,6 +292,8 @@ PROPS = {
     'C20': dict(
         tv=dict(module='VariantHeapTrace', cfg='VariantHeapTrace.cfg'),
         mc=[dict(module='VariantHeapMC', cfg='VariantHeapMC.cfg')],
+        gen=[dict(module='VariantHeapGen', tag='cover', cfg={'quick': 'VariantHeapGen.quick.cfg', 'thorough': 'VariantHeapGen.thorough.cfg'}, heap='8g'),
+             dict(module='VariantHeapGen', tag='sim', cfg='VariantHeapGen.sim.cfg', sim={'quick': (200, 28), 'thorough': (4000, 28)})],
         corrupt=[('change the reported type of a slot', _sloftype)],
         exhaustive_part=True,
     ),
@@ -320,6 +325,9 @@ PROPS = {
         tv=[dict(part='sched', module='ConcurrentEvalTrace', cfg='ConcurrentEvalTrace.cfg'),
             dict(part='race', module='ConcurrentEvalTrace', cfg='ConcurrentEvalTrace.cfg')],
         mc=[dict(module='ConcurrentEvalMC', cfg='ConcurrentEvalMC.cfg', tag='2'), dict(module='ConcurrentEvalMC', cfg='ConcurrentEvalMC3.cfg', tag='3')],
+        gen=[dict(part='sched', module='ConcurrentEvalGen', tag='p7', cfg='ConcurrentEvalGen.p7.cfg', label='every schedule of the model'),
+             dict(part='sched', module='ConcurrentEvalGen', tag='p3', cfg='ConcurrentEvalGen.p3.cfg', label='every schedule of the model'),
+             dict(part='sched', module='ConcurrentEvalGen', tag='p5', cfg='ConcurrentEvalGen.p5.cfg', label='every schedule of the model')],
         corrupt=[('change a concurrent result', _chresult)],
         exhaustive_part=True,
         race=True,
